@@ -729,6 +729,8 @@ func randStr(r *Rng, lens []int) []byte {
 }
 
 func genPrincipal(g *GenCtx) {
+	g.R = NewRng(g.R.U64() + uint64(g.Part)*0x9E3779B97F4A7C15) // parts draw different random cases
+
 	T := []tgt{{[]byte("user"), []byte("target"), 7777}, {[]byte("user"), []byte("other"), 7777}}
 	// the two shapes on which the pinned tree failed come first
 	g.Op("new")
@@ -821,6 +823,8 @@ func genPrincipal(g *GenCtx) {
 }
 
 func genTarget(g *GenCtx) {
+	g.R = NewRng(g.R.U64() + uint64(g.Part)*0x9E3779B97F4A7C15) // parts draw different random cases
+
 	T := tgt{[]byte("user"), []byte("target"), 7777}
 	g.Op("new")
 	for _, ca := range []string{"1 1", "1 0", "0 1", "0 0", "1 1"} {
